@@ -83,6 +83,9 @@ def make_recording(rng, d, ns, n, name="rec", faults=False, nsync=1):
         cd, cn = int(rng.integers(5, n // 2 - 5)), int(rng.integers(n // 2 + 5, n - 5))
         x[:, cd] = rng.standard_normal(ns) * 1e-7
         x[:, cn] += rng.standard_normal(ns) * 400e-6
+        # ... and a top block lacking the common signal (outside the brain): rejection keeps it out of the spatial reference
+        kout = int(rng.integers(8, 14))
+        x[:, n - kout:] = rng.standard_normal((ns, kout)) * 15e-6
     raw = np.clip(np.round(x / s2v[None, :]), -32768, 32767).astype(np.int16)
     # saturated stretches (all channels at full scale), one of them across a batch seam region
     sat = []
@@ -217,12 +220,14 @@ def run_destripe(V, b, out, nbatch, nproc, opts, h=None):
     return V.decompress_destripe_cbin(b, **kw)
 
 
-def options(rng, opt, n):
+def options(rng, opt, n, pad1=False):
     o = {"k_filter": True}
     if opt == 1:
         o["k_filter"] = False
     elif opt == 2:
-        o["ns2add"] = int(rng.integers(1, 3000))
+        o["ns2add"] = int(rng.integers(1, 3000)) if rng.random() < 0.6 else int(rng.choice([1, 1, 2]))      # a single padded sample is a padding like any other
+        if pad1:
+            o["ns2add"] = 1
     elif opt == 3:
         o["wrot"] = float(rng.uniform(0.5, 3))
     elif opt == 4:
@@ -272,7 +277,7 @@ def run_case(case):
                 b = _np2.compress_original(b, rec, chunk_duration=float(rng.choice([0.05, 0.11, 1.0])))
                 container = "cbin"
                 res.count("compressed_inputs")
-            opts = options(rng, case["opt"], n)
+            opts = options(rng, case["opt"], n, pad1=case["seed"] % 1000 == 8)      # every run pads one recording by exactly one sample
             if case.get("ncout") == "n":
                 opts["nc_out"] = n
             elif case.get("ncout") == "less":
@@ -334,6 +339,7 @@ def run_case(case):
                 if labels is not None:
                     res.count("reject_runs")
                     res.count("reject_runs_with_bad_channels", int(np.any((labels == 1) | (labels == 2))))
+                    res.count("reject_runs_with_outside_channels", int(np.any(labels == 3)))
                 if opts.get("butter_kwargs") is not None:
                     res.count("custom_filter_settings")
                 ref, _ = reference(V, F, sr, rec, nbatch, opts.get("k_filter", True), opts.get("wrot"), labels, nc_out, ns2add, sr.geometry,
